@@ -1,6 +1,7 @@
 """Large parametric structures (spec/LargeShapes.tla): lassos with thousands of states / nodes presented to the real code;
 TraceBig.tla judges the answers by closed forms that MC_LargeShapes checks against the generic semantics for n <= 6."""
 import random
+from common import exc_name
 
 import pymc
 import mcfam
@@ -40,7 +41,7 @@ def big_event(c):
         except BaseException as ex:
             if type(ex).__name__ == 'CaseTimeout':
                 raise
-            return {'exc': type(ex).__name__, 'msg': str(ex)[:80]}
+            return {'exc': exc_name(ex), 'msg': str(ex)[:80]}
     if c['op'] in ('reach', 'back', 'sccs'):
         def run():
             g = pymc.DiGraph(V=V, E=E)
@@ -82,7 +83,7 @@ def cases(rnd, kinds, count, nrange=(1050, 1600), logics=('CTL',)):
 
 
 def run_big(ctx, cs, procs=8):
-    from common import pmap
+    from common import pmap, exc_name
     import json
     ctx.model('MC_LargeShapes.tla', 'LargeShapes.cfg', timeout=900)      # closed forms = generic definitions for every lasso with n <= 6
     for i, c in enumerate(cs):
